@@ -1,4 +1,4 @@
 From Coq Require Extraction.
 From Coq Require Import ExtrOcamlBasic.
 From Tickit Require Import InputDefs InputSpec.
-Extraction "mC20.ml" push_chunks push_bytes push_bytes_pinned ist0 tst0 tpush tpoll spec_keys input_checkb.
+Extraction "mC20.ml" push_chunks push_bytes push_bytes_pinned ist0 tst0 tpush tpoll twait wait_left wait_tv_msec spec_keys input_checkb.
